@@ -175,7 +175,8 @@ def update_ref_contract(ref_is_none):
 
 
 def contracts():
-    return [update_ref_contract(False), update_ref_contract(True)]
+    from contracts import c12 as _c12
+    return [update_ref_contract(False), update_ref_contract(True), _c12.setup_params_contract(["C08/"])]
 
 
 ASSUMPTIONS = [
